@@ -194,6 +194,50 @@ def c09(tier, rng, fam='C09'):
                     b.step('fault', what='cwrite')
                 b.step('rel', gate='mux.call.window')
                 out.append(b.q().done())
+    # a slow consumer: k responses of a stream have arrived and wait unread (one in the stream's read loop,
+    # the next in the connection's queue for it ...) when the read fails; every later Recv returns
+    for kind in ('bidi', 'ss'):
+        for k in (1, 2, 3):
+            for how in ('cread', 'creadeof'):
+                for wr in ('writable', 'failing'):
+                    b = B(fam, '%s with %d unread responses when the read fails (%s), write side %s' % (kind, k, how, wr), ser=True)
+                    b.step('sopen', c=1, kind=kind, hp=[dict(o='recv')] + [dict(o='send', pay='r%d' % i) for i in range(k)] + [dict(o='ctxwait'), ret(code=1, msg='gone')])
+                    b.step('ucall', c=2, pay='bystander', hp=[])
+                    b.step('send', c=1, pay='go')
+                    b.q()
+                    b.step('fault', what=how)
+                    if wr == 'failing':
+                        b.step('fault', what='cwrite')
+                    b.q()
+                    b.step('recv', c=1, n=k + 1)
+                    b.q()
+                    b.step('recv', c=1)
+                    out.append(b.q().done())
+    # the same race without a forced order: 12 callers parked just before they register are released at the
+    # very moment the read failure lands (no quiescence in between; the goroutines of a bubble run on all
+    # cores), many times - every caller must return
+    for r_ in range(600 if tier == "quick" else 6000):
+        b = B(fam, 'callers racing the read failure #%d' % r_, ser=bool(r_ % 2))
+        b.step('ucall', c=99, pay='warm', hp=[ret(pay='up')])
+        b.step('arm', gate='mux.call.window', n=12)
+        for c in range(1, 13):
+            if c % 4:
+                b.step('ucall', c=c, pay='q%d' % c, hp=[ret(pay='p%d' % c)], nw=True)
+            else:
+                b.step('sopen', c=c, kind='bidi', hp=[dict(o='echo')], nw=True)
+        b.step('wait')
+        order = r_ % 3
+        if order == 0:
+            b.step('fault', what='cread', nw=True)
+            b.step('rel', gate='mux.call.window', nw=True)
+        elif order == 1:
+            b.step('rel', gate='mux.call.window', nw=True)
+            b.step('fault', what='cread', nw=True)
+        else:
+            b.step('fault', what='creadeof', nw=True)
+            b.step('rel', gate='mux.call.window', nw=True)
+        b.step('wait')
+        out.append(b.q().done())
     return out
 
 
